@@ -28,6 +28,8 @@ class Unit:
         self.enums = d.get("enums", [])
         self.stats = d["stats"]
         self.functions = d["functions"]
+        if os.environ.get("VERIF_ALPHA"):
+            _alpha_rename(self.functions)
         self.lambda_by_class = {}
         self.fn_by_id = {}
         self.all_functions = []
@@ -77,6 +79,48 @@ class Unit:
         if c is None:
             return None
         return self.decls.get(c)
+
+
+def _alpha_rename(functions):
+    """Robustness self-test (VERIF_ALPHA=1): rename every parameter and local variable of library functions to a
+    name derived from nothing but its position, as a behaviour-preserving refactoring would. A check that still
+    passes does not depend on the spelling of locals and parameters."""
+    ren = {}
+
+    def decls_of(fn, prefix):
+        for i, p in enumerate(fn.get("params", [])):
+            if p.get("name"):
+                ren[p["id"]] = "%sa%d" % (prefix, i)
+        k = [0]
+        for n in walk(fn.get("body"), into_lambdas=False):
+            if n.get("k") == "var" and n.get("name") and "id" in n:
+                ren[n["id"]] = "%sv%d" % (prefix, k[0])
+                k[0] += 1
+            if n.get("k") == "lambda":
+                for j, op in enumerate(n.get("ops", [])):
+                    decls_of(op, prefix + "l")
+    for fn in functions:
+        decls_of(fn, "r_")
+
+    def apply(fn):
+        for p in fn.get("params", []):
+            if p.get("id") in ren:
+                p["name"] = ren[p["id"]]
+        roots = [fn.get("body")] + [i.get("init") for i in fn.get("inits", []) or []]
+        for r in roots:
+            for n in walk(r, into_lambdas=False):
+                if n.get("k") in ("ref", "var") and n.get("id") in ren:
+                    n["name"] = ren[n["id"]]
+                if n.get("k") == "lambda":
+                    for c in n.get("captures", []):
+                        if c.get("id") in ren:
+                            c["name"] = ren[c["id"]]
+                        elif c.get("var_id") in ren:
+                            c["name"] = ren[c["var_id"]]
+                    for op in n.get("ops", []):
+                        apply(op)
+    for fn in functions:
+        apply(fn)
 
 
 def walk(node, into_lambdas=True):
